@@ -11,6 +11,12 @@ from sismic.model import (BasicState, CompoundState, DeepHistoryState, FinalStat
 
 EVENTS = ['e0', 'e1', 'e2']
 NAMES = ['n%02d' % i for i in range(60)]
+# state names of other shapes: upper/lower case (code-point order differs from case-insensitive order), digits (string order
+# differs from numeric order), unicode (UTF-8 byte order = code-point order), dots / dashes / underscores, long names
+VARIED = ['A', 'B', 'Z', 'a', 'b', 'z', 'AA', 'Aa', 'aA', 'a1', 'a10', 'a2', 'a02', '1', '10', '2', '02', 'n7', 'n07', 'n70',
+          'Idle', 'idle', 'IDLE', 'idle.sub', 'idle-sub', 'idle_sub', 'Zeta', 'alpha', 'Alpha', '\u00e9tat', 'etat', '\u00c9tat',
+          '\u03b1', '\u03a9mega', '\u65e5\u672c', '\u0436', 'x' * 40, 'x' * 41, 'y' * 64, 'on', 'off', 'yes', 'no', 'true', 'null',
+          'None', 'state', 'root', 'final', 'history', 'H', 'H*', 'q.r.s', 'v2.0', 'a+b', 'a=b', 'p&q', 'k@home', 'w!']
 
 
 class Profile:
@@ -34,6 +40,8 @@ class Profile:
         self.p_event_param_guard = 0.05
         self.p_active_guard = 0.12     # guards that also read the configuration through active()
         self.active_in_actions = True  # actions may read the configuration through active()
+        self.p_varied_names = 0.12     # per chart: state names of varied shape (unicode, long, mixed case, digits) instead of nDD
+        self.p_large = 0.05            # per chart: a large statechart (up to 40 states, deeper nesting)
         self.p_cross_region = 0.0      # probability of KEEPING a transition that crosses between sibling regions (outside section 2)
         self.p_dup_transition = 0.04   # probability of declaring one transition twice (equal transitions are legal)
         self.use_k = False             # actions may update k, a variable that exists only in the initial context
@@ -55,11 +63,21 @@ class Gen:
         self.k_guard = 0
         self.k_cond = 0
         self.uniq = 100
+        self.pool = NAMES[:12]
 
     def fresh_names(self, n):
+        if self.rng.random() < self.p.p_varied_names:
+            pool = list(VARIED)
+            self.rng.shuffle(pool)
+            names = pool[:max(n, 1) + 20]
+            while len(names) < n + 20:
+                names.append('State_number_%d_with_a_rather_long_descriptive_name' % len(names))
+            self.pool = names
+            return names
         names = NAMES[:max(n, 1) + 20]
         if self.p.shuffle_names:
             self.rng.shuffle(names)
+        self.pool = NAMES[:12]
         return names
 
     # ---------------------------------------------------------------- code fragments
@@ -75,7 +93,7 @@ class Gen:
         if r < self.p.p_time_guard + 0.14:
             return base + ' and x %s %d' % (self.rng.choice(['<', '>=', '!=']), self.rng.randint(0, 3))
         if r < self.p.p_time_guard + 0.14 + self.p.p_active_guard:
-            return base + self.rng.choice([" and not active('%s')", " and active('%s')", " or active('%s')"]) % self.rng.choice(NAMES[:12])
+            return base + self.rng.choice([" and not active('%s')", " and active('%s')", " or active('%s')"]) % self.rng.choice(self.pool)
         return base
 
     def action(self, allow_send=True):
@@ -98,7 +116,7 @@ class Gen:
                 parts.append(self.rng.choice(['x = x + 1', 'y = y + x', 'x = x - 1', 'y = x', 'x = 0', 'y = y + 1'] +
                                              (['k = k + 1', 'k = k + x'] if self.p.use_k else [])))
             elif r < 0.83 and self.p.active_in_actions:
-                parts.append("y = y + (1 if active('%s') else 0)" % self.rng.choice(NAMES[:12]))
+                parts.append("y = y + (1 if active('%s') else 0)" % self.rng.choice(self.pool))
             elif r < 0.9:
                 parts.append('z%d = time' % self.rng.randint(0, 1))
             elif self.p.use_tick:
@@ -125,7 +143,7 @@ class Gen:
             e = self.rng.choice(EVENTS)
             return "%s and (sent('%s') or not sent('%s')) and %d == %d" % (base, e, e, u, u)
         if r < 0.92:
-            return "%s and (active('%s') or time >= 0) and %d == %d" % (base, self.rng.choice(NAMES[:8]), u, u)
+            return "%s and (active('%s') or time >= 0) and %d == %d" % (base, self.rng.choice(self.pool), u, u)
         return 'x >= %d or %d == %d' % (self.rng.randint(-3, 0), u, u)
 
     def contract_on(self, obj):
@@ -140,7 +158,9 @@ class Gen:
     # ---------------------------------------------------------------- structure
     def build(self):
         rng, p = self.rng, self.p
-        n_target = rng.randint(3, p.max_states)
+        large = rng.random() < p.p_large
+        n_target = rng.randint(25, 40) if large else rng.randint(3, p.max_states)
+        max_depth = 7 if large else 4
         names = self.fresh_names(n_target + 4)
         it = iter(names)
         sc = Statechart('gen', preamble='x = 0\ny = 0\ng = 4095\nc = 0')
@@ -181,16 +201,16 @@ class Gen:
         def fill(nm, depth):
             kind = states[nm][0]
             if kind == 'compound':
-                k = rng.randint(1, 3) if depth < 4 else 1
+                k = rng.randint(1, 3) if depth < max_depth else 1
                 made = []
                 for _ in range(k):
                     if budget[0] <= 0 and made:
                         break
                     budget[0] -= 1
                     r = rng.random()
-                    if depth < 4 and budget[0] > 1 and r < p.p_orth:
+                    if depth < max_depth and budget[0] > 1 and r < p.p_orth:
                         ck = 'orthogonal'
-                    elif depth < 4 and budget[0] > 0 and r < p.p_orth + 0.25:
+                    elif depth < max_depth and budget[0] > 0 and r < p.p_orth + 0.25:
                         ck = 'compound'
                     elif r > 1 - p.p_final:
                         ck = 'final'
@@ -222,7 +242,7 @@ class Gen:
                 for _ in range(k):
                     budget[0] -= 1
                     r = rng.random()
-                    if depth < 4 and budget[0] > 0 and r < 0.55:
+                    if depth < max_depth and budget[0] > 0 and r < 0.55:
                         ck = 'compound'
                     elif depth < 3 and budget[0] > 1 and r < 0.65:
                         ck = 'orthogonal'
@@ -274,7 +294,7 @@ class Gen:
             return True
 
         owners = [n for n in order if states[n][0] in ('basic', 'compound', 'orthogonal')]
-        nt = rng.randint(*p.n_trans)
+        nt = rng.randint(*p.n_trans) * (3 if large else 1)
         made_t = []
         tries = 0
         while len(made_t) < nt and tries < 200:
